@@ -65,7 +65,7 @@ def equivalent(utype, a, b):
 
 ACCESSORS = ["ham_new", "ham_assign", "faxis", "mol_new", "mol_set_energy", "mol_width", "mode_new", "mode_set_energy",
              "agg_coupling", "agg_coupling_matrix", "cf_reorg", "sd_reorg", "length", "ham_rwa", "mol_adiabatic", "submode", "ham_inplace",
-             "mol_ham", "mol_vib_ham", "ham_diag", "ham_undiag"]
+             "mol_ham", "mol_vib_ham", "ham_diag", "ham_undiag", "dfun_spline"]
 LIBCALLS = ["agg_build", "agg_build_env", "agg_build_raises", "agg_rebuild", "get_Hamiltonian", "relaxation_tensor", "rate_matrix",
             "set_rwa", "time_to_frequency_axis", "frequency_to_time_axis", "thermal_state", "molecule_hamiltonian",
             "cf_add", "sd_from_cf", "ft_cf", "abs_calculate", "propagate", "diagonalize", "convert",
@@ -87,7 +87,8 @@ class World:
                        "enforce_probe_outside", "mixed_energy_length_nesting", "context_object_reused",
                        "context_object_reused_under_same_units", "failing_convert", "hamiltonian_modified_in_place_between_reads", "api_sweep_call",
                        "molecule_hamiltonian_first_built_here", "hamiltonian_diagonalized_here",
-                       "context_object_reentered_while_active", "context_object_reentered_under_other_units"]
+                       "context_object_reentered_while_active", "context_object_reentered_under_other_units",
+                       "interpolation_first_used_under_other_units"]
     required_faults = ["F1_simfault", "F2_library_call_raises", "F3_unknown_unit"]
     components = {
         "real": ["Manager unit state and conversions", "energy_units / frequency_units / length_units", "set_current_units",
@@ -538,7 +539,7 @@ class Runner:
             self.ctx.ev(i, "set", name, lu)
             self.ctx.cov("set", name, lu)
             return
-        if name in ("faxis",) and u == "nm":
+        if name in ("faxis", "dfun_spline") and u == "nm":
             self.ctx.ev(i, "set", name, "noop-nm")
             return
         if name == "cf_reorg" and self.eu_depth() == 0:
@@ -601,6 +602,12 @@ class Runner:
                 store = E
             elif name == "faxis":
                 obj = qr.FrequencyAxis(v, 5, v / 10.0)
+                store = e
+            elif name == "dfun_spline":
+                # a function of frequency; its interpolated value at a physical point must not depend on the units
+                # that were active when the interpolation was first asked for (that happens right below, in do_get)
+                fa = qr.FrequencyAxis(v, 24, v / 40.0)
+                obj = qr.DFunction(fa, numpy.cos(numpy.arange(24) / 4.0))
                 store = e
             elif name == "mol_new":
                 obj = qr.Molecule([0.0, v])
@@ -732,6 +739,19 @@ class Runner:
             elif name in ("mol_new", "mol_set_energy"):
                 got = obj.get_energy(1)
                 exp = float(from_internal(u, e))
+            elif name == "dfun_spline":
+                import scipy.interpolate
+                xs = e + (e / 40.0) * numpy.arange(24)
+                ref = float(scipy.interpolate.UnivariateSpline(xs, numpy.cos(numpy.arange(24) / 4.0), s=0)(e * (1.0 + 7.3 / 40.0)))
+                xu = float(from_internal(u, e * (1.0 + 7.3 / 40.0)))
+                if u == "nm":
+                    # a linear axis in frequency is not linear (nor increasing) in wavelength: not interpolated there
+                    got = exp = numpy.zeros(0)
+                else:
+                    got = numpy.array([float(obj.at(xu, approx="spline")), float(obj.at(xu))])
+                    exp = numpy.array([ref, ref])
+                if uset != u and not equivalent("energy", uset, u):
+                    self.ctx.probe("interpolation_first_used_under_other_units")
             elif name in ("mol_ham", "mol_vib_ham"):
                 got = numpy.array(obj.get_Hamiltonian().data)
                 exp = from_internal(u, e)
